@@ -103,11 +103,14 @@ pub fn run(ctx: &Ctx) -> ! {
         for x in [list(vec![s("a"), FV::Null, s("é")]), list(vec![])] {
             v.push(("ls", x));
         }
+        for x in [list(vec![list(vec![]), list(vec![i(1), i(2)])]), list(vec![list(vec![FV::Null]), list(vec![i(4)])]), list(vec![list(vec![i(7)]), list(vec![]), list(vec![i(8), u(u64::MAX)])]), list(vec![FV::Null, list(vec![])]), list(vec![list(vec![]), list(vec![])]), list(vec![])] {
+            v.push(("ll", x));
+        }
         v
     };
     for (k, (prop, val)) in out_values.iter().enumerate() {
         let mut d = Dataset::new(&format!("value{k}"));
-        let mut props = vec![("id", i(k as i64)), ("n", FV::Null), ("s", FV::Null), ("l", FV::Null), ("ls", FV::Null), ("f", FV::Null), ("b", FV::Null)];
+        let mut props = vec![("id", i(k as i64)), ("n", FV::Null), ("s", FV::Null), ("l", FV::Null), ("ls", FV::Null), ("ll", FV::Null), ("f", FV::Null), ("b", FV::Null)];
         for p in props.iter_mut() {
             if p.0 == *prop {
                 p.1 = val.clone();
@@ -135,6 +138,9 @@ pub fn run(ctx: &Ctx) -> ! {
         ("{ V { id @output b @filter(op: \"=\", value: [\"$x\"]) } }", "diamond", vec![FV::Boolean(true), FV::Boolean(false), FV::Null]),
         ("{ V { id @output l @filter(op: \"contains\", value: [\"$x\"]) } }", "diamond", vec![i(1), u(1), FV::Null]),
         ("{ V { id @output next @fold @transform(op: \"count\") @filter(op: \">=\", value: [\"$x\"]) @output(name: \"c\") { id } } }", "counts0123", vec![i(-1), i(0), i(2), u(u64::MAX)]),
+        ("{ V { id @output ll @filter(op: \"=\", value: [\"$x\"]) } }", "diamond", vec![list(vec![list(vec![]), list(vec![i(1), i(2)])]), list(vec![FV::Null, list(vec![FV::Null, u(1)])]), list(vec![list(vec![i(7)]), list(vec![]), list(vec![i(8)])]), list(vec![]), FV::Null]),
+        ("{ V { id @output ll @filter(op: \"contains\", value: [\"$x\"]) } }", "diamond", vec![list(vec![]), list(vec![i(1), i(2)]), list(vec![FV::Null, u(1)]), FV::Null]),
+        ("{ V { id @output l @filter(op: \"one_of\", value: [\"$x\"]) } }", "diamond", vec![list(vec![list(vec![]), list(vec![i(1), i(2)])]), list(vec![list(vec![FV::Null, u(1)]), list(vec![])])]),
     ];
     for (q, dsn, vals) in &arg_queries {
         let iq = match engine::compile(&uni.schema, q) {
